@@ -59,6 +59,12 @@ let slices : rng list ref = ref []          (* prefix order *)
 let leaves : (iterable * int) list ref = ref []
 let tabs : val0 option list list ref = ref []
 
+let rec show v = match v with
+  | VInt z -> z_to_dec z
+  | VObj (id, z) -> z_to_dec z ^ "@" ^ z_to_dec id
+  | VTup vs -> "(" ^ String.concat " " (List.map show vs) ^ ")"
+let acc : string list ref = ref []      (* items the probe function (map 7) was applied to, newest first *)
+
 let rec build (a : ast) : info =
   match a with
   | Leaf (k, xs) ->
@@ -131,13 +137,10 @@ let rec build (a : ast) : info =
     { it = IFilter (m_pred (nat_of_int (posmod id 9)), ui.it); basesz = ui.basesz; haslen = false; hasget = false }
   | Map (id, u) ->
     let ui = build u in
-    { it = IMap (m_fun (nat_of_int (posmod id 7)), ui.it); basesz = ui.basesz; haslen = ui.haslen; hasget = ui.hasget }
+    let fid = posmod id 8 in
+    let f = if fid = 7 then (fun v -> acc := show v :: !acc; m_fun (nat_of_int 7) v) else m_fun (nat_of_int fid) in
+    { it = IMap (f, ui.it); basesz = ui.basesz; haslen = ui.haslen; hasget = ui.hasget }
 and mkrng_dummy () = { r_start = Z0; r_stop = Z0; r_step = Z0 }
-
-let rec show v = match v with
-  | VInt z -> z_to_dec z
-  | VObj (id, z) -> z_to_dec z ^ "@" ^ z_to_dec id
-  | VTup vs -> "(" ^ String.concat " " (List.map show vs) ^ ")"
 
 let fuel = nat_of_int 20000
 
@@ -164,8 +167,12 @@ let () =
       let nn = match n with Some k -> k | None -> -1 in
       let cutoff = if nn >= 0 then (if nn > 5000 then 10004 else 2 * nn + 4) else 2 * i.basesz + 4 in
       Buffer.add_string buf (";leaf=" ^ String.concat "/" (List.map (fun (it, sz) -> walk_s Fwd (2 * sz + 4) it) !leaves));
-      Buffer.add_string buf (";fwd=" ^ walk_s Fwd cutoff i.it);
-      Buffer.add_string buf (";bwd=" ^ walk_s Bwd cutoff i.it);
+      let acc_s () = let l = List.rev !acc in acc := []; String.concat "," l in
+      acc := [];
+      let fw = walk_s Fwd cutoff i.it in
+      Buffer.add_string buf (";fwd=" ^ fw ^ ";af=" ^ acc_s ());
+      let bw = walk_s Bwd cutoff i.it in
+      Buffer.add_string buf (";bwd=" ^ bw ^ ";ab=" ^ acc_s ());
       Buffer.add_string buf ";get=";
       if nn >= 0 && i.hasget then begin
         let rec go k acc =
